@@ -619,6 +619,9 @@ var hostileTokens = []string{
 	// the names of the replacement markers, and ordinary names, in other letter cases
 	"[NoMarkup]", "[/NoMarkup]", "[NOMARKUP]", "[Plural value=1 one=\"one\"]", "[Select value=a a=\"x\"/]", "[ORDINAL value=1 one=\"st\"/]", "[/Plural]",
 	"NoMarkup", "Select", "[Wave]", "[/wave]", "[wave]", "[/Wave]", "[WAVE/]", "[A]", "[/A]",
+	// replacement markers whose text is far longer than their source, and property values with many fraction digits
+	"[plural value=1234567890 other=\"%%%%%%%%%%\"/]", "[select value=a a=\"%%%% and %%%% and %%%% and %%%% and %%%%\"/] ", " and then [b]some[/b] more ", "[ordinal value=1234567 other=\"%%%%%%%%\"/] x [nomarkup]text",
+	"[a p=1.00000000000000000001/]", "[wave size=0.000000000000000000000001]", "[plural value=1.0000000000000000000000 one=\"x\" other=\"y\"/]", "[a p=12345678901234567890.5/]", "[b trimwhitespace=maybe/]",
 }
 
 // HostileMarkup assembles a string from marker fragments and hostile bytes.
